@@ -48,21 +48,21 @@ do_op = do_validate
 
 
 def positions_of(ahb):
+    """[index of the node in document order, index of the pool entry or None]: discriminators may repeat"""
     out = []
-    for node, _ in walk(ahb):
+    for number, (node, _) in enumerate(walk(ahb)):
         if node["t"] == "p":
             for index in range(len(node["pool"])):
-                out.append([node["d"], index])
+                out.append([number, index])
         else:
-            out.append([node["d"], None])
+            out.append([number, None])
     return out
 
 
 def _holder(ahb, position):
-    for node, _ in walk(ahb):
-        if node["d"] == position[0]:
-            return node if position[1] is None else node["pool"][position[1]]
-    raise KeyError(position)
+    nodes = [node for node, _ in walk(ahb)]
+    node = nodes[position[0]]
+    return node if position[1] is None else node["pool"][position[1]]
 
 
 def with_kann(ahb, planted):
@@ -127,6 +127,12 @@ def generate(seed, tier="quick"):
     )
     if rnd.random() < 0.05:
         ahb = widen(rnd, ahb, pool)  # the planted fault sits among (or is one of) more than ten siblings
+    if rnd.random() < 0.1:
+        # repeated lines: two nodes with the same discriminator (one of them may be the faulty one)
+        nodes = [n for n, _ in walk(ahb)]
+        if len(nodes) >= 2:
+            donor, receiver = rnd.sample(nodes, 2)
+            receiver["d"] = donor["d"]
     positions = positions_of(ahb)
     rnd = rng(seed, "c16-fault")
     if len(positions) > VARIANTS:
@@ -148,7 +154,8 @@ def generate(seed, tier="quick"):
     for position in chosen:
         expression, family = _gen_planted_expression(rnd, universe, cer)
         _holder(ahb, position)["e"] = expression
-        planted.append({"at": position, "expr": expression, "family": family})
+        planted.append({"at": position, "d": [n for n, _ in walk(ahb)][position[0]]["d"], "expr": expression,
+                        "family": family})
     profile = rnd.choice([p for p in PROFILES if p != "zero"] * 3 + ["zero"])
     request = {
         "rid": "r0",
@@ -210,31 +217,22 @@ def shrink(scenario):
             _holder(cop["ahb"], planted[drop]["at"])["e"] = "Kann"
             del cop["planted"][drop]
             yield candidate
-    protected = [p["at"][0] for p in planted]
-    planted_exprs = {p["expr"] for p in planted}
-    for candidate in shrink_validation(scenario, protected=protected):
+    for candidate in shrink_validation(scenario):
         cop = candidate["requests"][0]["op"]
-        try:
-            # value pool entries may have moved or vanished; planted expressions must still be where they are recorded
-            if all(_holder(cop["ahb"], p["at"])["e"] == p["expr"] for p in cop["planted"]):
-                yield candidate
-            else:
-                # re-locate planted pool entries after a sibling entry was dropped
-                relocated = []
-                for plant in cop["planted"]:
-                    node = next(n for n, _ in walk(cop["ahb"]) if n["d"] == plant["at"][0])
-                    if plant["at"][1] is None:
-                        if node["e"] != plant["expr"]:
-                            raise KeyError
-                        relocated.append(plant)
-                    else:
-                        index = next(i for i, e in enumerate(node["pool"]) if e["e"] == plant["expr"])
-                        relocated.append(dict(plant, at=[plant["at"][0], index]))
-                cop["planted"] = relocated
-                if {p["expr"] for p in relocated} == planted_exprs:
-                    yield candidate
-        except (KeyError, StopIteration, IndexError):
-            continue
+        relocated, used = [], set()
+        for plant in cop["planted"]:
+            found = None
+            for position in positions_of(cop["ahb"]):
+                if tuple(position) not in used and _holder(cop["ahb"], position)["e"] == plant["expr"]:
+                    found = position
+                    break
+            if found is None:
+                break
+            used.add(tuple(found))
+            relocated.append(dict(plant, at=found))
+        else:
+            cop["planted"] = relocated
+            yield candidate
 
 
 # ------------------------------------------------------------------------------------------------------ oracle
@@ -269,7 +267,7 @@ def _bump(verdict, name, count=1):
 def _judge(request, outcome, reference, reasons, verdict):
     op = request["op"]
     planted = op["planted"]
-    kinds = {n["d"]: n["t"] for n, _ in walk(op["ahb"])}
+    nodes = [n for n, _ in walk(op["ahb"])]
     families = sorted({p["family"] for p in planted})
     _bump(verdict, f"planted_{len(planted)}")
     # the planted expressions are invalid by construction (structural criterion, sim/gen_expr.gen_invalid); the
@@ -287,7 +285,7 @@ def _judge(request, outcome, reference, reasons, verdict):
     if "ok" not in outcome:
         fail(
             verdict,
-            f"validation-aborted:{kinds[planted[0]['at'][0]]}",
+            f"validation-aborted:{nodes[planted[0]['at'][0]]['t']}",
             f"planted {planted} (families {families}): validation ended with {dumps(outcome)[:300]} although the AHB "
             f"with 'Kann' instead validates fine",
         )
@@ -304,29 +302,34 @@ def _judge(request, outcome, reference, reasons, verdict):
     planted_nodes = {p["at"][0]: p for p in planted if p["at"][1] is None}
     planted_entries = {p["at"][0] for p in planted if p["at"][1] is not None}
     reached = 0
+    # reported items are a subsequence of the document order (nodes below forbidden parents are missing)
+    cursor = 0
     for item, reference_item in zip(got, expected):
         discriminator = item["discriminator"]
+        while cursor < len(nodes) and nodes[cursor]["d"] != discriminator:
+            cursor += 1
+        number, cursor = (cursor if cursor < len(nodes) else None), cursor + 1
+        kind = nodes[number]["t"] if number is not None else "?"
         result = item["validation_result"]
-        if discriminator in planted_nodes:
+        if number in planted_nodes:
             reached += 1
-            plant = planted_nodes[discriminator]
+            plant = planted_nodes[number]
             status = result["requirement_validation"].split(".")[-1]
             if not status.startswith("IS_OPTIONAL"):
-                fail(verdict, f"planted-node-not-optional:{kinds[discriminator]}",
+                fail(verdict, f"planted-node-not-optional:{kind}",
                      f"node {discriminator} with invalid expression {plant['expr']!r} is reported {status}")
             elif not result.get("hints") or (
                 known_reason[plant["expr"]] is not None and known_reason[plant["expr"]] not in result["hints"]
             ):
-                fail(verdict, f"planted-node-without-reason:{kinds[discriminator]}",
+                fail(verdict, f"planted-node-without-reason:{kind}",
                      f"node {discriminator} with invalid expression {plant['expr']!r}: hints {result.get('hints')!r}, "
                      f"the reason evaluation gives is {known_reason[plant['expr']]!r}")
             continue
-        if discriminator in planted_entries:
-            node = next(n for n, _ in walk(op["ahb"]) if n["d"] == discriminator)
-            if len(node["pool"]) > 1:
+        if number in planted_entries:
+            if len(nodes[number]["pool"]) > 1:
                 reached += 1
         if item != reference_item:
-            where = "pool-with-planted-entry" if discriminator in planted_entries else f"other-node:{kinds[discriminator]}"
+            where = "pool-with-planted-entry" if number in planted_entries else f"other-node:{kind}"
             fail(
                 verdict,
                 f"differs-from-kann-replacement:{where}",
@@ -337,8 +340,8 @@ def _judge(request, outcome, reference, reasons, verdict):
     _bump(verdict, "planted_pruned", len(planted) - reached)
     verdict["nontrivial"] = verdict["nontrivial"] or reached > 0
     for plant in planted:
-        kind = kinds[plant["at"][0]] + ("-entry" if plant["at"][1] is not None else "")
-        _bump(verdict, f"position_{kind}")
+        where = nodes[plant["at"][0]]["t"] + ("-entry" if plant["at"][1] is not None else "")
+        _bump(verdict, f"position_{where}")
         _bump(verdict, f"family_{plant['family'].split('+')[0].split(':')[0]}")
         if "+" in plant["family"]:
             _bump(verdict, "family_multi_part")
